@@ -73,14 +73,14 @@ macro "close_leaf " nd:term:max bs:term:max hc:ident : tactic => `(tactic|
    have hcU := $hc
    try simp +zetaDelta only [Bool.not_eq_true', Bool.not_eq_false', Bool.or_eq_true, Bool.or_eq_false_iff,
      Bool.and_eq_true, Bool.and_eq_false_imp, beq_iff_eq, bne_iff_ne, beq_eq_false_iff_ne, bne_eq_false_iff_eq,
-     decide_eq_true_eq, decide_eq_false_iff_not, fmod_pos _ 8 (by omega), Bool.not_not, Bool.beq_eq_decide_eq,
+     decide_eq_true_eq, decide_eq_false_iff_not, fmod_pos _ 8 (by omega), fdiv_pos _ 8 (by omega), Bool.not_not, Bool.beq_eq_decide_eq,
      decide_eq_decide, Bool.not_eq_true, Bool.not_eq_false] at hcU
    try simp only [Bool.and_eq_true, Bool.not_eq_true', Bool.not_eq_true, not_and] at *
    try simp only [$hc:ident, eq_self, Bool.true_eq_false, Bool.false_eq_true, and_true, true_and, and_false, false_and,
      true_implies, false_implies, implies_true, not_true_eq_false, not_false_eq_true, and_self] at *
    try simp +zetaDelta only [Bool.not_eq_true', Bool.not_eq_false', Bool.or_eq_true, Bool.or_eq_false_iff,
      Bool.and_eq_true, Bool.and_eq_false_imp, beq_iff_eq, bne_iff_ne, beq_eq_false_iff_ne, bne_eq_false_iff_eq,
-     decide_eq_true_eq, decide_eq_false_iff_not, fmod_pos _ 8 (by omega), Bool.not_not, Bool.beq_eq_decide_eq,
+     decide_eq_true_eq, decide_eq_false_iff_not, fmod_pos _ 8 (by omega), fdiv_pos _ 8 (by omega), Bool.not_not, Bool.beq_eq_decide_eq,
      decide_eq_decide, Bool.not_eq_true, Bool.not_eq_false] at *
    try simp only [AcceptSpec, Common, NativeOK, StoredRange, BaselineOK, RleOK, JpegFamilyOK, Req.spp, monoPI, knownPI, requiredPI,
      jpegBaseline, rle, jpegLs, jpegLsNear, j2k, j2kLossless] at *
@@ -97,14 +97,14 @@ macro "prep_leaf " hc:ident : tactic => `(tactic|
   (have hcU := $hc
    try simp +zetaDelta only [Bool.not_eq_true', Bool.not_eq_false', Bool.or_eq_true, Bool.or_eq_false_iff,
      Bool.and_eq_true, Bool.and_eq_false_imp, beq_iff_eq, bne_iff_ne, beq_eq_false_iff_ne, bne_eq_false_iff_eq,
-     decide_eq_true_eq, decide_eq_false_iff_not, fmod_pos _ 8 (by omega), Bool.not_not, Bool.beq_eq_decide_eq,
+     decide_eq_true_eq, decide_eq_false_iff_not, fmod_pos _ 8 (by omega), fdiv_pos _ 8 (by omega), Bool.not_not, Bool.beq_eq_decide_eq,
      decide_eq_decide, Bool.not_eq_true, Bool.not_eq_false] at hcU
    try simp only [Bool.and_eq_true, Bool.not_eq_true', Bool.not_eq_true, not_and] at *
    try simp only [$hc:ident, eq_self, Bool.true_eq_false, Bool.false_eq_true, and_true, true_and, and_false, false_and,
      true_implies, false_implies, implies_true, not_true_eq_false, not_false_eq_true, and_self] at *
    try simp +zetaDelta only [Bool.not_eq_true', Bool.not_eq_false', Bool.or_eq_true, Bool.or_eq_false_iff,
      Bool.and_eq_true, Bool.and_eq_false_imp, beq_iff_eq, bne_iff_ne, beq_eq_false_iff_ne, bne_eq_false_iff_eq,
-     decide_eq_true_eq, decide_eq_false_iff_not, fmod_pos _ 8 (by omega), Bool.not_not, Bool.beq_eq_decide_eq,
+     decide_eq_true_eq, decide_eq_false_iff_not, fmod_pos _ 8 (by omega), fdiv_pos _ 8 (by omega), Bool.not_not, Bool.beq_eq_decide_eq,
      decide_eq_decide, Bool.not_eq_true, Bool.not_eq_false] at *))
 
 set_option maxRecDepth 8000
@@ -165,7 +165,7 @@ macro "close_fallthrough " nd:term:max bs:term:max : tactic => `(tactic|
   (try simp only [Bool.and_eq_true, Bool.not_eq_true', Bool.not_eq_true, not_and] at *
    try simp +zetaDelta only [Bool.not_eq_true', Bool.not_eq_false', Bool.or_eq_true, Bool.or_eq_false_iff,
      Bool.and_eq_true, Bool.and_eq_false_imp, beq_iff_eq, bne_iff_ne, beq_eq_false_iff_ne, bne_eq_false_iff_eq,
-     decide_eq_true_eq, decide_eq_false_iff_not, fmod_pos _ 8 (by omega), Bool.not_not, Bool.beq_eq_decide_eq,
+     decide_eq_true_eq, decide_eq_false_iff_not, fmod_pos _ 8 (by omega), fdiv_pos _ 8 (by omega), Bool.not_not, Bool.beq_eq_decide_eq,
      decide_eq_decide, Bool.not_eq_true, Bool.not_eq_false] at *
    try simp only [AcceptSpec, Common, NativeOK, StoredRange, BaselineOK, RleOK, JpegFamilyOK, Req.spp, monoPI, knownPI, requiredPI,
      jpegBaseline, rle, jpegLs, jpegLsNear, j2k, j2kLossless] at *
@@ -618,7 +618,7 @@ theorem decodedDType_of (d : DType) (ba pr : Int) (hk : d.kind = "b" ∨ d.kind 
     itself -- for every shape, every supported dtype and every content.  (YBR photometric
     interpretations excluded: pydicom converts them to RGB on the way out, see `ybr_full_*`.) -/
 theorem native_cells_decode (c : CodecImpl) (conv : List Int → List Int) (p : Params) (x : Frame) (bytes : List Nat)
-    (hwf : x.WF) (hts : p.ts ∈ nativeSyntaxes) (hba : p.bitsAllocated ≠ 1)
+    (hwf : x.WF) (hts : p.ts ∈ nativeSyntaxes) (hba : p.bitsAllocated ≠ 1) (hmul : p.bitsAllocated % 8 = 0)
     (henc : encodeFrame c p x = .ok bytes) :
     FitsStored p x ∧
     decodeFrame c conv p x.rows x.cols x.spp bytes = .ok (if convertsColour p.pi x.spp then conv x.data else x.data) ∧
@@ -629,12 +629,13 @@ theorem native_cells_decode (c : CodecImpl) (conv : List Int → List Int) (p : 
   obtain ⟨_, hspp, h3⟩ := hn
   rw [Req.of_spp] at hspp
   simp only [Req.of] at hplanar hpr hpi hbs1 hbs2 hspp h3
-  obtain ⟨_, hkind, hsz, hsg, hrange, hr2⟩ : p.bitsAllocated ≠ 1 ∧ (x.dtype.kind = "b" ∨ x.dtype.kind = "u" ∨ x.dtype.kind = "i") ∧
-      (x.dtype.itemsize : Int) * 8 = p.bitsAllocated ∧ (x.dtype.kind = "i" ↔ p.pixelRepresentation = 1) ∧
+  obtain ⟨_, hkind, hsz', hsg, hrange, hr2⟩ : p.bitsAllocated ≠ 1 ∧ (x.dtype.kind = "b" ∨ x.dtype.kind = "u" ∨ x.dtype.kind = "i") ∧
+      (x.dtype.itemsize : Int) = (p.bitsAllocated + 7) / 8 ∧ (x.dtype.kind = "i" ↔ p.pixelRepresentation = 1) ∧
       (p.bitsStored < p.bitsAllocated → StoredRange p.pixelRepresentation p.bitsStored x.min x.max) ∧ r = 2 := by
     rcases h3 with h3 | h3
     · exact absurd h3.1 hba
     · exact h3
+  have hsz : (x.dtype.itemsize : Int) * 8 = p.bitsAllocated := by omega
   subst hr2
   -- every sample fits the stored bits: checked against min / max when fewer bits are stored, else by the dtype
   have hfit : FitsStored p x := by
@@ -751,7 +752,7 @@ theorem ndim_three_iff (x : Frame) : ((x.ndim : Int) > 2) ↔ x.ndim = 3 := by
 
 /-- accepted (by any syntax but RLE, whose checks are pydicom's) ⇒ representable -/
 theorem representable_of_accepted (p : Params) (x : Frame) (r : Int) (h : encodeRoute p x = .ok r)
-    (hrle : p.ts ≠ rle) : Representable p x := by
+    (hrle : p.ts ≠ rle) (hal : p.bitsAllocated = 1 ∨ p.bitsAllocated % 8 = 0) : Representable p x := by
   have hs := route_sound (Req.of p x) r (by rw [← encodeRoute_eq]; exact h)
   obtain ⟨⟨hplanar, hpr, hpi, hbs1, hbs2⟩, hcases⟩ := hs
   have hspp := Req.of_spp p x
@@ -782,6 +783,7 @@ theorem representable_of_accepted (p : Params) (x : Frame) (r : Int) (h : encode
   · intro h3
     exact hplanar (hnd.mpr h3)
   · exact ⟨hbs1, hbs2⟩
+  · exact hal
   · exact hpr
   · intro hn hba
     have := hnat hn
@@ -798,6 +800,13 @@ theorem representable_of_accepted (p : Params) (x : Frame) (r : Int) (h : encode
     have := hnat hn
     simp only [monoPI, requiredPI, jpegBaseline, rle, jpegLs, jpegLsNear, j2k, j2kLossless] at hcases hrle
     grind
+
+/-- a bits-allocated value other than 1, 8, 16, 32 cannot be decoded (pydicom refuses the data set) -/
+theorem pydicomNative_refuses_allocated (conv : List Int → List Int) (p : Params) (rows cols samples : Nat) (bytes : List Nat)
+    (h : p.bitsAllocated ≠ 1 ∧ p.bitsAllocated ≠ 8 ∧ p.bitsAllocated ≠ 16 ∧ p.bitsAllocated ≠ 32) :
+    pydicomNative conv p rows cols samples bytes = .error .value := by
+  unfold pydicomNative decodedDType
+  simp [h.1, h.2.1, h.2.2.1, h.2.2.2, bind, Except.bind]
 
 /-- refused exactly when no route satisfies the specification -/
 theorem refused_iff (p : Params) (x : Frame) :
